@@ -42,6 +42,37 @@ func value(r *rand.Rand, class string) float64 {
 	return r.Float64()
 }
 
+// hugeWhole draws a whole-valued finite number whose magnitude is beyond what integer
+// types hold: mostly float32-representable magnitudes in [2^63, 3e38], further whole
+// values in [2^53, 2^63] including the exact int64 boundaries, and the largest numbers
+// that still have a fraction (k + 0.5 just below 2^52). Both signs.
+func hugeWhole(r *rand.Rand) float64 {
+	var x float64
+	switch r.Intn(10) {
+	case 0, 1, 2, 3, 4:
+		x = float64(float32(math.Ldexp(1, 63) * math.Pow(10, r.Float64()*19.5))) // 9.2e18 … 2.9e38
+		if x > 3e38 {
+			x = float64(float32(3e38))
+		}
+	case 5:
+		x = []float64{1e19, 3e20, 2.5e25, 1e30, 3e38, 18446744073709551616}[r.Intn(6)]
+		x = float64(float32(x))
+	case 6:
+		x = []float64{math.Ldexp(1, 63), math.Ldexp(1, 63) - 1024, math.Ldexp(1, 63) + 2048, math.Ldexp(1, 62), math.Ldexp(1, 53), math.Ldexp(1, 53) + 2}[r.Intn(6)]
+	case 7, 8:
+		x = math.Floor(math.Ldexp(1+r.Float64(), 53+r.Intn(10))) // whole, 2^53 … 2^63
+	case 9:
+		x = math.Floor(math.Ldexp(1+r.Float64(), 51)) + 0.5 // largest magnitudes with a fraction
+		if x >= math.Ldexp(1, 52) {
+			x = math.Ldexp(1, 52) - 0.5
+		}
+	}
+	if r.Intn(2) == 0 {
+		x = -x
+	}
+	return x
+}
+
 var indexPatterns = []string{"identity", "permutation", "welded", "grid", "unreferenced", "repeated"}
 
 type meshDesc struct {
@@ -57,6 +88,7 @@ type meshDesc struct {
 	ZeroLen  int
 	NilMat   bool
 	AdjEqual bool
+	Huge     int // components drawn from the huge-whole class
 }
 
 type listDesc struct {
@@ -163,6 +195,10 @@ func partition(r *rand.Rand, n int, pool []*modeling.Material, d *meshDesc) []mo
 func genOneMesh(r *rand.Rand, name string, hasN, hasT bool, pool []*modeling.Material, big bool) (modeling.Mesh, *expMesh, meshDesc) {
 	d := meshDesc{Name: name}
 	d.Class = listValueClasses[r.Intn(len(listValueClasses))]
+	huge := r.Intn(25) == 0 // a few % of the meshes carry huge whole-valued components in every attribute
+	if huge {
+		d.Class = "huge-whole"
+	}
 	d.Pattern = indexPatterns[r.Intn(len(indexPatterns))]
 	maxT := 8
 	if big {
@@ -252,6 +288,25 @@ func genOneMesh(r *rand.Rand, name string, hasN, hasT bool, pool []*modeling.Mat
 			nor[i] = a
 		}
 		uv[i] = [2]float64{r.Float64(), r.Float64()}
+		if huge {
+			for k := 0; k < 3; k++ {
+				if r.Intn(2) == 0 {
+					pos[i][k] = hugeWhole(r)
+					d.Huge++
+				}
+				if r.Intn(3) == 0 {
+					nor[i][k] = hugeWhole(r) // a non-unit normal is still a normal
+					d.Huge++
+				}
+			}
+			for k := 0; k < 2; k++ {
+				if r.Intn(3) == 0 {
+					uv[i][k] = hugeWhole(r)
+					d.Huge++
+				}
+			}
+			continue
+		}
 		if r.Intn(6) == 0 {
 			uv[i] = [2]float64{float64(r.Intn(3)) / 2, float64(r.Intn(5)-1) / 2} // 0, 0.5, 1, outside [0,1]
 		}
